@@ -6,6 +6,7 @@ import (
 	"os"
 	"path/filepath"
 	"sort"
+	"sync/atomic"
 	"time"
 )
 
@@ -71,14 +72,18 @@ func NewRun(prop, tier string, seed uint64, root string) *Run {
 }
 
 // Case counts one evaluated case; key identifies it for the distinct count; nontrivial by the rule.
+// Progress counts the bookkeeping calls of the running check; the watchdog in cmd/zcheck reads it.
+var Progress int64
+
 func (r *Run) Case(key string, nontrivial bool) {
+	atomic.AddInt64(&Progress, 1)
 	r.Evals++
 	if nontrivial {
 		r.distinct[key] = true
 	}
 }
-func (r *Run) Count(what string)         { r.Dist[what]++ }
-func (r *Run) CountN(what string, n int) { r.Dist[what] += n }
+func (r *Run) Count(what string)         { atomic.AddInt64(&Progress, 1); r.Dist[what]++ }
+func (r *Run) CountN(what string, n int) { atomic.AddInt64(&Progress, 1); r.Dist[what] += n }
 func (r *Run) Sample(s interface{}) {
 	if len(r.Samples) < 3 {
 		r.Samples = append(r.Samples, s)
